@@ -70,10 +70,33 @@ def run_crosscheck(run, reg, which, n):
             r = rand_comp(rnd, with_q=True)
             m = M([], {})
             call("SyntheticRuleMatcher.can_match", lambda rule, data: m.can_match(rule, data), {"rule": r, "data": d})
+    if "CheckCarbonBalance.process_reaction" in which:
+        from synrbl.SynProcessor.check_carbon_balance import CheckCarbonBalance as CB
+        from checks import pipeline as P
+        pool = [r for r in P.CRAFTED] + ["CC.CC>>CCCC", "CC.CC.O>>CCCC.O.O", "C>>", ">>C", "CC>CC", "C(C>>CC", "CC>>C(C", "", "CCO>>CC=O>>C", "[Na+].[Cl-]>>[Na]Cl"]
+        for _ in range(n):
+            r = rnd.choice(pool)
+            if rnd.random() < 0.3:
+                a, _, b = r.partition(">>")
+                r = ".".join([a] * rnd.randint(1, 2)) + ">>" + b
+            row = {"reaction": r, "id": str(rnd.randint(0, 9))}
+            if rnd.random() < 0.05:
+                row = {"id": "0"}
+            call("CheckCarbonBalance.process_reaction",
+                 lambda reaction, rsmi_col, symbol, atom_type: CB.process_reaction(reaction, rsmi_col, symbol, atom_type, {}),
+                 {"reaction": row, "rsmi_col": "reaction", "symbol": ">>", "atom_type": "C"})
     return cases, fails
 
 
-SPECFUNS = {}
+def _F(q, *args):
+    """F('qualname', args...): the value of a pure program function, natively"""
+    if q == "CheckCarbonBalance.count_atoms":
+        from synrbl.SynProcessor.check_carbon_balance import CheckCarbonBalance as CB
+        return CB.count_atoms(args[0], args[1], {})
+    raise KeyError(q)
+
+
+SPECFUNS = {"F": _F}
 
 
 def bounded_part(run, modules, which, n_quick=200, n_thorough=3000):
@@ -93,6 +116,7 @@ GENERATORS = {
     "merge_stats": ("contracts.balancing", "merge_stats"),
     "SyntheticRuleMatcher.exit_strategy_solution": ("contracts.matcher", "SyntheticRuleMatcher.exit_strategy_solution"),
     "SyntheticRuleMatcher.can_match": ("contracts.matcher", "SyntheticRuleMatcher.exit_strategy_solution"),
+    "CheckCarbonBalance.process_reaction": ("contracts.rows", "CheckCarbonBalance.process_reaction"),
 }
 
 
@@ -103,6 +127,9 @@ def _callable(q):
     if q == "merge_stats":
         from synrbl.balancing import merge_stats
         return merge_stats
+    if q == "CheckCarbonBalance.process_reaction":
+        from synrbl.SynProcessor.check_carbon_balance import CheckCarbonBalance as CB
+        return lambda reaction, rsmi_col, symbol, atom_type: CB.process_reaction(reaction, rsmi_col, symbol, atom_type, {})
     from synrbl.SynRuleImputer.synthetic_rule_matcher import SyntheticRuleMatcher as M
     if q.endswith("can_match"):
         m = M([], {})
@@ -129,7 +156,7 @@ def find_failing_input(q, modules, seed=0, n=4000):
     return None
 
 
-def replay_input(inp, modules=("contracts.comparator", "contracts.balancing", "contracts.matcher")):
+def replay_input(inp, modules=("contracts.rows", "contracts.externals", "contracts.comparator", "contracts.decomposer", "contracts.balancing", "contracts.matcher")):
     """re-evaluate the contract of inp['function'] on the recorded concrete call"""
     import ast as _ast
     from pyvc.run import load_registry
